@@ -5,6 +5,7 @@
 (*  [id, kind |-> "cov", cov, cap, elig]   unsaturated coverage: 1 if elig <= cap else cap / elig                           *)
 (*  [id, kind |-> "sum", total, parts]     eligible = sum of the targeted compartments                                       *)
 (*  [id, kind |-> "le", a, b]              coverage in force <= saturation level in force at that time                         *)
+(*  [id, kind |-> "deriv", x0, x1, outcome, dt, lo, hi, haslo, hashi]   derivative parameter: x1 = clip(x0 + outcome * dt)      *)
 EXTENDS Big, Integers, Sequences, TLC, Json, IOUtils, FiniteSets
 Trace == ndJsonDeserialize(IOEnv.TRACE_FILE)
 VARIABLES i, bad
@@ -23,10 +24,15 @@ ValueOK(e) ==
        inside == (~e.haslo \/ SLe(e.lo, SAdd(e.val, Tol(e.val, K1e9, 8)))) /\ (~e.hashi \/ SLe(e.val, SAdd(e.hi, Tol(e.hi, K1e9, 8))))
    IN inside /\ (unclipped \/ (clippedLo /\ beyondLo) \/ (clippedHi /\ beyondHi))
 CovOK(e) == IF SLe(e.elig, e.cap) THEN SClose(e.cov, SOne, K1e9, 8) ELSE RelClose(SMul(e.cov, e.elig), SMul(e.cap, SOne), K1e9, PSlack(e.cov, e.elig))
+\* a derivative parameter: the program outcome is its rate of change per year, the value moves by outcome * dt per step and is clipped
+DerivOK(e) == LET raw == SAdd(e.x0, SRescale(SMul(e.outcome, e.dt)))
+                  want == IF e.haslo /\ SLe(raw, e.lo) THEN e.lo ELSE IF e.hashi /\ SLe(e.hi, raw) THEN e.hi ELSE raw
+              IN SClose(e.x1, want, K1e9, 8)
 Failing(e) ==
    IF e.kind = "value" THEN (IF ValueOK(e) THEN {} ELSE {"ProgValue"})
    ELSE IF e.kind = "same" THEN (IF e.a = e.b THEN {} ELSE {"Mismatch"})
    ELSE IF e.kind = "cov" THEN (IF CovOK(e) THEN {} ELSE {"Coverage"})
+   ELSE IF e.kind = "deriv" THEN (IF DerivOK(e) THEN {} ELSE {"Derivative"})
    ELSE IF e.kind = "le" THEN (IF SLe(e.a, SAdd(e.b, Tol(e.b, K1e9, 8))) THEN {} ELSE {"Saturation"})      \* coverage in force never exceeds the saturation level of that year
    ELSE (IF SClose(e.total, SSumSeq(e.parts), K1e9, 8 + Len(e.parts)) THEN {} ELSE {"Eligible"})
 Init == i = 1 /\ bad = {}
